@@ -21,7 +21,8 @@ Record imp := mk_imp {
 Record case := mk_case {
   c_self : bytes;
   c_ops : list op;
-  c_cmp : bool;                  (* inside the modelled domain (ASCII, references that print/parse back) *)
+  c_struct : bool;               (* every reference prints to a string that ParseTypeRef/ParseRef (C15) parse back *)
+  c_cmp : bool;                  (* inside the modelled domain: c_struct and ASCII everywhere *)
   c_obs : list obs_op;
   c_final : list imp;            (* Imports() at the end, sorted by path *)
   c_local : list (bytes * bytes) (* LocalNameOf(p) at the end, for every path the history mentions *)
@@ -33,7 +34,7 @@ Definition amap_eqb : amap -> amap -> bool := list_eqb pair_eqb.
 Definition final_table (c : case) : amap := map (fun i => (i_path i, i_name i)) (c_final c).
 
 (* ---- model vs implementation ---- *)
-Definition model_fixed : bool := false.
+Definition model_fixed : bool := true.
 
 Definition mismatch (c : case) : bool :=
   if c_cmp c then
@@ -60,9 +61,12 @@ Fixpoint chain_b (snaps : list amap) : bool :=           (* a name, once given, 
 
 Definition holds (c : case) : bool :=
   let tbl := final_table c in
-  (* nothing panicked, every operation was observed *)
-  forallb (fun o => match oo_text o with Some _ => true | None => false end) (c_obs c)
-  && Nat.eqb (length (c_obs c)) (length (c_ops c))
+  (* nothing panicked, every operation was observed (a reference string that does not parse is
+     rejected by processName with a panic: not a naming failure) *)
+  (if c_struct c then
+     forallb (fun o => match oo_text o with Some _ => true | None => false end) (c_obs c)
+     && Nat.eqb (length (c_obs c)) (length (c_ops c))
+   else true)
   (* distinct local names, one per path; PathOf is the inverse of LocalNameOf *)
   && nodup_b (keys tbl) && nodup_b (vals tbl)
   && forallb (fun i => option_eqb bytes_eqb (i_pathof i) (Some (i_path i))) (c_final c)
@@ -75,9 +79,9 @@ Definition holds (c : case) : bool :=
   (* a name std reserves is bound to its std package only *)
   && forallb (fun i => is_nil (i_owners i) || mem (i_path i) (i_owners i)) (c_final c)
   (* the imports are exactly the referenced packages *)
-  && same_set_b (keys tbl) (history_paths (c_self c) (c_ops c))
+  && (if c_struct c then same_set_b (keys tbl) (history_paths (c_self c) (c_ops c)) else true)
   (* every reference is printed with the name its package is imported under; own package unqualified *)
-  && (if c_cmp c then
+  && (if c_struct c then
         list_eqb (option_eqb bytes_eqb) (map oo_text (c_obs c)) (map (print_op (c_self c) tbl) (c_ops c))
       else true).
 
